@@ -103,12 +103,13 @@ def run(ctx):
         ops = z3.Intersect(tl.named['Funny'], z3.Complement(tl.NL))
         ref_nl = rx.union([z3.Re('\r\n'), z3.Re('\n'), z3.Re('\r')])
         exact = z3.Union(rx.union([z3.Re(o) for o in ref['EXACT']]), z3.Intersect(L('Funny'), z3.Complement(ref_nl)))
-        lemmas.subset(ctx, 'O-ref-operators-are-parso-operators:%s' % tag, exact, ops, uniform=uni, broken_b=z3.Re('+'))
+        lemmas.subset(ctx, 'O-ref-operators-are-parso-operators:%s' % tag, exact, ops, uniform=uni, broken_b=z3.Re('+'),
+                      concrete='c10_stream', concrete_args=(ref['python'], v))
         # parso may know operators CPython's tokenizer reports as error tokens (they never occur in programs it accepts);
         # everything else must be in the table
         extra_ok = rx.union([z3.Re(o) for o in ('!', '`', '`=', '$', '?')])
         lemmas.subset(ctx, 'O-parso-operators-are-ref-operators:%s' % tag, ops, z3.Union(exact, extra_ok), uniform=uni,
-                      broken_b=exact if False else z3.Re('+'))
+                      broken_b=exact if False else z3.Re('+'), concrete='c10_stream', concrete_args=(ref['python'], v))
         # first-match = longest match for operators: every member of the (finite) operator language is consumed whole
         members, complete = _finite_members(ops)
         bad = [m for m in members if tl.tc.pseudo_token.match(m) is None or tl.tc.pseudo_token.match(m).group(2) != m]
@@ -142,6 +143,7 @@ def run(ctx):
             ctx.add('I-identifier-chars-in-name:%s' % tag, 'z3', verdict, time.time() - t0, nonvacuous=True, detail=det,
                     bound='single characters <= U+2FFFF (Name is a + of one character class, so the word-level claim follows)')
     indentation(ctx)
+    stream_conditions(ctx)
 
 
 _ident_done = set()
@@ -233,3 +235,33 @@ def indentation(ctx):
         ctx.add('IND-order', 'z3', HOLDS, dt, nonvacuous=True, bound=bound)
     else:
         ctx.add('IND-order', 'z3', INCONCLUSIVE, dt, detail='z3 ' + r)
+
+
+def stream_conditions(ctx):
+    """stream level (partial): parso vs the pure-Python reference tokenizer of CPython 3.11/3.10, both executed
+    symbolically by CrossHair on little valid programs with a one-character ASCII hole"""
+    from .. import xh
+    from ..harness import reftok
+    if reftok.REF is None:
+        ctx.notes.append('no pure-Python reference tokenize.py (3.11 / 3.10) found: stream-level conditions skipped')
+        return
+    q = ctx.tier == 'quick'
+    ctx.encode('parso.python.tokenize.tokenize_lines (whole streams, version %d.%d)' % reftok.REF_VERSION)
+    ctx.assume('stream level: the reference is the source of Lib/tokenize.py of CPython %d.%d (%s), loaded into the checking process; '
+               'lone CR and TAB holes excluded (tokenize.py and the C tokenizer differ there)' % (reftok.REF_VERSION + (reftok.REF.__file__,)))
+    C = []
+    for k in range(len(reftok.HOLES)):
+        pre, post = reftok.HOLES[k]
+        C.append(xh.Cond('vp.harness.reftok', 'tok_vs_ref', timeout=300, path_timeout=30,
+                         name='stream/hole%d(%r+c+%r)' % (k, pre, post), extra_pre=['k == %d' % k],
+                         bound='program %r + one ASCII character + %r: same significant tokens (type, text, position) as the '
+                               'reference tokenizer whenever it tokenizes without error' % (pre, post),
+                         realised='code point of the hole (complete ASCII alphabet; both tokenizers run natively)'))
+    if not q:
+        for k in range(len(reftok.HOLES)):
+            for lo in range(0, 128, 16):
+                C.append(xh.Cond('vp.harness.reftok', 'tok_vs_ref2', timeout=1200, path_timeout=30,
+                                 name='stream2/hole%d/c1 in [%d,%d)' % (k, lo, lo + 16), extra_pre=['k == %d' % k, '%d <= c1 < %d' % (lo, lo + 16)],
+                                 bound='two-character hole: any ASCII character followed by one of %d lexically relevant characters' % len(reftok.ALPHA2),
+                                 realised='two hole characters'))
+    xh.run_conditions(ctx, C)
